@@ -160,6 +160,103 @@ def check_mol(case):
     return res
 
 
+# ------------------------------------------------------------------ records with several fragments (salts, ion pairs)
+LONE = {"H": 1 - 0, "F": 7 - 6, "Cl": 7 - 6, "Br": 7 - 6, "I": 7 - 6}  # documented formula: valence - non-bonded - bond order
+
+
+@st.composite
+def salt_case(draw):
+    return dict(part="salt", a=draw(st.lists(st.integers(0, 10**6), min_size=24, max_size=60)),
+                b=draw(st.one_of(st.none(), st.lists(st.integers(0, 10**6), min_size=24, max_size=40))),
+                lone=draw(st.lists(st.sampled_from(sorted(LONE)), min_size=0, max_size=3)),
+                lone_first=draw(st.booleans()), perm=draw(st.lists(st.integers(0, 10**6), min_size=16, max_size=40)))  # fmt: skip
+
+
+def check_salt(case):
+    """One MOL2 record holding several fragments that share no bond (an ion pair, a ligand stored with
+    its counter-ions): charge cannot flow between them, so every fragment keeps ITS OWN formal charge
+    and gets exactly the charges it gets when it is the whole record."""
+    res = Result()
+    frags = [molgen.random_mol(molgen.Chooser(case["a"]), max_atoms=30)]
+    if case["b"]:
+        frags.append(molgen.random_mol(molgen.Chooser(case["b"]), max_atoms=20))
+    lone = list(case["lone"])
+    if not case["b"] and not lone:
+        lone = ["Cl"]
+    combo = molgen.Mol()
+    owner = []  # fragment index per atom of the combined record
+    blocks = ([("lone", t) for t in lone] if case["lone_first"] else []) + [("frag", k) for k in range(len(frags))] + \
+             ([] if case["lone_first"] else [("lone", t) for t in lone])  # fmt: skip
+    exp_frag = []
+    for kind, x in blocks:
+        fi = len(exp_frag)
+        if kind == "lone":
+            combo.add(x, float(LONE[x]))
+            owner.append(fi)
+            exp_frag.append(float(LONE[x]))
+            continue
+        m = frags[x]
+        off = len(combo.atoms)
+        for a in m.atoms:
+            combo.add(a["type"], a["formal"])
+            owner.append(fi)
+        for i, j, o in m.bonds:
+            combo.bond(i + off, j + off, o)
+        exp_frag.append(sum(a["formal"] for a in m.atoms))
+    n = len(combo.atoms)
+    names = [f"Z{i}" for i in range(n)]
+    p = molgen.Chooser(case["perm"])
+    order = p.shuffle(n) if p.pick(2) else None
+    res.label(f"fragments={len(frags)}", f"lone={len(lone)}", "permuted" if order else "block-order")
+    try:
+        mol = _read(molgen.to_mol2(combo, names, order))
+        fc = [mol.atoms[names[i]].formal_charge for i in range(n)]
+        mol.assign_parameters()
+    except Exception as e:  # noqa: BLE001
+        res.bad(f"C16:salt:exception:{type(e).__name__}", f"multi-fragment record rejected: {e!r}")
+        return res
+    q = [mol.atoms[names[i]].charge for i in range(n)]
+    if any(abs(fc[i] - combo.atoms[i]["formal"]) > 1e-9 for i in range(n)):
+        i = next(i for i in range(n) if abs(fc[i] - combo.atoms[i]["formal"]) > 1e-9)
+        res.bad("C16:salt:formal-charge", f"{combo.atoms[i]['type']}: formal charge {fc[i]}, construction {combo.atoms[i]['formal']}")
+    if abs(sum(q) - sum(exp_frag)) > 1e-6:
+        res.bad("C16:salt:not-conserved", f"charges sum to {sum(q):.6f}, formal charges to {sum(exp_frag)} "
+                f"({len(frags)} fragment(s) + lone atoms {lone})")  # fmt: skip
+    for fi, e in enumerate(exp_frag):
+        tot = sum(q[i] for i in range(n) if owner[i] == fi)
+        if abs(tot - e) > 1e-6:
+            res.bad("C16:salt:fragment-not-conserved", f"fragment {blocks[fi]} carries {tot:.6f}, its formal charge is {e} "
+                    f"(charge moved between fragments that share no bond)")  # fmt: skip
+            break
+    for i in range(n):
+        r = mol.atoms[names[i]].radius
+        e = expected_radius(combo.atoms[i]["type"])
+        if r is None or r <= 0 or e is None or abs(r - e) > 1e-9:
+            res.bad("C16:salt:radius", f"{combo.atoms[i]['type']}: radius {r}, documented tables give {e}")
+            break
+    # each connected fragment alone
+    off = 0
+    for fi, (kind, x) in enumerate(blocks):
+        if kind == "lone":
+            off += 1
+            continue
+        m = frags[x]
+        nm = [f"Y{i}" for i in range(len(m.atoms))]
+        try:
+            alone = _read(molgen.to_mol2(m, nm))
+            alone.assign_parameters()
+        except Exception as e:  # noqa: BLE001
+            res.bad(f"C16:salt:exception:{type(e).__name__}", f"fragment alone rejected: {e!r}")
+            return res
+        d = max(abs(alone.atoms[nm[i]].charge - q[off + i]) for i in range(len(m.atoms)))
+        if d > 1e-9:
+            res.bad("C16:salt:fragment-depends-on-others", f"charges of a fragment differ by up to {d:.2e} from the charges it gets as a "
+                    f"record of its own")  # fmt: skip
+        off += len(m.atoms)
+    res.nontrivial = True
+    return res
+
+
 # ------------------------------------------------------------------ repository MOL2 files under permutation
 REPO_MOL2 = sorted((Path(__file__).resolve().parent.parent / "data" / "mol2").glob("*.mol2"))
 
@@ -435,6 +532,7 @@ def check_complex(case):
 def parts(tier):
     ps = [
         Part("mol", check_mol, strategy=mol_case(), budget=dict(quick=2400, thorough=30000)),
+        Part("salt", check_salt, strategy=salt_case(), budget=dict(quick=800, thorough=10000)),
         Part("complex", check_complex, strategy=complex_case(), budget=dict(quick=240, thorough=5000)),
     ]
     if REPO_MOL2:
